@@ -408,8 +408,8 @@ FIXED_CONN = [
     "0 0 T ; R R W1 Kl Kl R R R R R R ; | | | ; ; settle6",
     # ... the same start, but the retried connect fails too: the flush delivers the callback
     "0 0 T ; R R W1 Kd Kd R R R R R R ; | | | ; ; settle6",
-    # ... and a shutdown after the retry rescues the callback (the fed watcher runs uv__write_callbacks)
-    "0 0 U ; R R W1 Kl R R R R ; ; ; settle4",
+    # pipe whose connect failed: uv_write is refused (the stream is not writable), the retried connect opens it
+    "0 0 U ; R R W1 Kl W2 R R R R ; ; ; settle4",
     # uv_tcp_connect retried after uv_shutdown sets UV_HANDLE_WRITABLE again: the write is accepted
     "0 0 T ; S R R Kl Kl W4 R R R R R ; ; ; settle5",
 ]
